@@ -185,7 +185,8 @@ func c09Build(t *rapid.T, chain *c09Chain) c09Case {
 		_ = register(c09Make(n), c09Tenants[(o+i)%3])
 	}
 	classes := []string{"genuine", "forged-copy", "forged-copy-of-noise-key", "revoked", "unknown", "expired", "not-yet-valid", "no-client-auth",
-		"chain-of-two", "cn-not-address", "issuer-differs", "reissued-by-registered-key", "expired-twin-of-valid", "foreign-cn-registered-by-other"}
+		"chain-of-two", "cn-not-address", "issuer-differs", "reissued-by-registered-key", "expired-twin-of-valid", "foreign-cn-registered-by-other",
+		"forged-copy-of-record-with-pem-headers", "genuine-record-with-pem-headers"}
 	class := rapid.SampledFrom(classes).Draw(t, "class")
 	cs := c09Case{class: class, expect: "reject", owner: o}
 	switch class {
@@ -285,6 +286,25 @@ func c09Build(t *rapid.T, chain *c09Chain) c09Case {
 		s.notBefore, s.notAfter = now.Add(-300*day), now.Add(-2*day)
 		c := c09Make(s)
 		cs.present, cs.tlsCert, cs.hard = [][]byte{c.der}, c.tls, true
+	case "forged-copy-of-record-with-pem-headers", "genuine-record-with-pem-headers":
+		// the tenant registered its certificate as a PEM block that carries header lines: x/cert
+		// accepts it, x509.CertPool.AppendCertsFromPEM skips such blocks, so the gateway cannot
+		// build a trust anchor from the chain record. A forged copy must still be rejected; the
+		// genuine one may be refused (the statement only says when a client MAY be accepted).
+		real := c09Make(good)
+		blk, _ := pem.Decode(real.pem)
+		blk.Headers = map[string]string{"Comment": "registered with a header"}
+		withHdr := pem.EncodeToMemory(blk)
+		if err := chain.k.CreateCertificate(chain.ctx, owner, withHdr, real.pub); err != nil {
+			// the chain refuses such a record: then it is simply an unknown certificate
+			vsLabel("pem-header-record-refused-by-chain")
+		}
+		if class == "genuine-record-with-pem-headers" {
+			cs.present, cs.tlsCert, cs.expect = [][]byte{real.der}, real.tls, "any"
+		} else {
+			f := c09Make(good)
+			cs.present, cs.tlsCert, cs.hard = [][]byte{f.der}, f.tls, true
+		}
 	case "foreign-cn-registered-by-other":
 		// somebody else tries to publish a certificate naming the victim: the chain must refuse, and the gateway must not accept it
 		c := c09Make(good)
